@@ -84,6 +84,21 @@ JudgeOvBin(e, i) ==
                  ELSE [d |-> (IF e.out # "ok" THEN "wrong_reaction" ELSE IF J(e.res) = n.v THEN "ok" ELSE "wrong_value"),
                        nt |-> NearEdge(exact, rtype), cls |-> cls]
 
+\* ++x, x++, --x, x-- on overflow_integer<T, tag>: x := x +- 1 checked against T; the expression yields the new (pre) or
+\* the old (post) value; on throw / trap the object keeps its value
+JudgeOvInc(e, i) ==
+    LET a == J(e.l)  t == i.lt
+        exact == IF i.op \in {"preinc", "postinc"} THEN Add(a, One) ELSE Sub(a, One)
+        d0 == JudgeChecked(i.tag, t, exact, e.out, J(e.res))
+        stored == IF Side(exact, t) = "none" THEN exact ELSE IF i.tag = "saturated" THEN (IF Side(exact, t) = "pos" THEN TMax(t) ELSE TMin(t)) ELSE a
+        cls == <<"OvInc", i.op, i.path, i.tag, (IF t.s = 1 THEN "s" ELSE "u"), (IF t.w < WINT THEN "lt" ELSE "eq")>>
+    IN IF ~InT(a, t) THEN [d |-> "bad_event", nt |-> FALSE, cls |-> cls]
+       ELSE [d |-> (IF d0 # "ok" THEN d0
+                    ELSE IF J(e.res) # stored THEN "object_not_as_prescribed"
+                    ELSE IF e.out = "ok" /\ J(e.ret) # (IF i.op \in {"preinc", "predec"} THEN stored ELSE a) THEN "wrong_value_returned"
+                    ELSE "ok"),
+             nt |-> NearEdge(exact, t), cls |-> cls]
+
 JudgeOvUn(e, i) ==   \* unary minus
     LET a == J(e.l)
         rtype == OpResult1(i.op, i.lt)
